@@ -1,8 +1,10 @@
 """Triage helper (NOT a registered check): compile/run a QBASIC snippet
 against the real code and print the outcome.  usage: w.py [-O n] [-g] [--run] 'src'"""
 import sys, io, traceback, contextlib
-sys.path.insert(0, '/repo')
-sys.path.insert(0, '/repo/tests')
+import os
+ROOT = os.environ.get('QBEE_REPO', '/repo')
+sys.path.insert(0, ROOT)
+sys.path.insert(0, ROOT + '/tests')
 def main():
     args = sys.argv[1:]
     opt = 0; dbg = False; run = False; inputs = []
